@@ -31,6 +31,10 @@ def run(ctx):
     ctx.rule("R12.3", "a completed request is queued only after the whole list was moved into it")
     ctx.rule("R12.4", "no duplication / leak API on descriptors in connection.rs / request.rs")
     ctx.rule("R12.5", "the chain from the list to Request.files preserves order; the list is mutated only by extend/drain/clear")
+    ctx.rule("R12.6", "every receive goes through the descriptor-aware wrapper: the only call that touches the stream under try_read is the one recvmsg (a plain read would make the kernel discard descriptors queued with the bytes) (= C03 R03.1)")
+    from .c06 import _Remap
+    from . import c03
+    ctx.guarded("R12.6", "stream", lambda: c03.stream(_Remap(ctx, "R12.6")))
     ctx.guarded("R12.1", "wrap", lambda: wrap(ctx))
     ctx.guarded("R12.2", "append", lambda: append(ctx))
     ctx.guarded("R12.3", "move", lambda: move(ctx))
